@@ -1,15 +1,19 @@
 (* Properties/C03.v -- replies go back to the asker, from the identity that was
    asked. This file only pins the statement; the proof is in Proofs/C03.v. *)
-From MS Require Import L2 Spec.View Spec.RefDec Spec.C03 Spec.EnvOk Proofs.C03.
+From MS Require Import Proto L2 Spec.View Spec.RefDec Spec.C03 Spec.EnvOk Proofs.C03.
 
 (* For every configuration, table and frame: what is emitted satisfies the C03
    monitor. A reply frame goes from the configured MAC to the MAC the request came
    from, with the EtherType of the request; an IP reply has the version and
    protocol of the request, is addressed to the request's source and comes from
    the request's destination (a neighbour advertisement: from the solicited
-   target); a TCP / UDP reply has the request's ports exchanged, except that the
+   target); a UDP reply has the request's ports exchanged, except that the
    STUN success response to a binding request carrying CHANGE-REQUEST with the
-   change-port bit leaves from the next port (mod 2^16).
+   change-port bit leaves from the next port (mod 2^16); a TCP reply goes to the
+   request's source port and leaves from the port that was contacted, or, when it
+   carries a STUN success response, possibly from the next port (the handler of a
+   TCP flow is given the answered segment joined to the bytes the flow has pending,
+   so the request cannot be read off the answered frame alone: see C03_mirror_strict).
    [env_ok E] (decided by computation on the generated data, Properties/Env.v)
    is used for one fact: the constant replies (HTTP, SSH, Gh0st) do not begin
    with the bytes 01 01 of a STUN success response. *)
@@ -20,4 +24,16 @@ Theorem C03_mirror :
     ok_C03 cfg f r = true.
 Proof. exact mirror. Qed.
 
+(* When no flow of the connection table has bytes pending (all flows identified, or
+   still without data), the TCP ports are determined by the answered segment exactly
+   as for UDP. *)
+Theorem C03_mirror_strict :
+  forall E cfg clk tb f tb' r evs,
+    cfg_ok cfg = true -> env_ok E = true -> bytes_ok f = true ->
+    (forall k tc, tbl_find k tb = Some tc -> t_pending tc = []) ->
+    reply E cfg clk tb f = Ok (tb', r, evs) ->
+    ok_C03_strict cfg f r = true.
+Proof. exact mirror_strict. Qed.
+
 Print Assumptions C03_mirror.
+Print Assumptions C03_mirror_strict.
